@@ -16,7 +16,7 @@ package single
 //@   ensures [pins-the-root-with-the-options] rootPin.Cid == root && rootPin.PinOptions == old(dgs.pinOpts) && rpcLastArg == any(rootPin)
 //@   ensures [allocations-are-the-block-destinations] old(dgs.pinOpts.ReplicationFactorMin) >= 0 ==> rootPin.Allocations == old(dgs.dests)
 //@   ensures [everywhere-means-empty] old(dgs.pinOpts.ReplicationFactorMin) < 0 ==> len(rootPin.Allocations) == 0
-//@   modifies rpcN, rpcLastSvc, rpcLastMethod, rpcLastArg, heap(api.Pin), heap(DAGService)
+//@   modifies rpcN, rpcLastSvc, rpcLastMethod, rpcLastArg, clusterPinN, heap(api.Pin), heap(DAGService)
 
 //@ func New
 //@   opts trusted
